@@ -27,11 +27,43 @@ def _init(pid):
     _CHECK = load_check(pid)
 
 
+def _fresh(unit):
+    """Run one unit in a brand-new interpreter (no world has ever run there): for oracles about process-wide state."""
+    import pickle
+    import subprocess
+    import tempfile
+
+    with tempfile.TemporaryDirectory(prefix="hmsmc_sub_") as td:
+        fin, fout = os.path.join(td, "unit.pkl"), os.path.join(td, "result.pkl")
+        with open(fin, "wb") as f:
+            pickle.dump(unit, f)
+        env = dict(os.environ, HMSMC_SUBUNIT="1")
+        out = subprocess.run([sys.executable, "-m", "hmsmc", "subunit", _CHECK.ID, fin, fout], env=env, cwd=VERIF, capture_output=True, text=True, timeout=3000)
+        if out.returncode != 0 or not os.path.exists(fout):
+            raise RuntimeError(f"sub-interpreter failed (rc={out.returncode}): {out.stderr[-1500:]}")
+        with open(fout, "rb") as f:
+            return pickle.load(f)
+
+
 def _work(unit):
     try:
+        if unit.get("fresh_process") and not os.environ.get("HMSMC_SUBUNIT"):
+            return ("ok", _fresh(unit))
         return ("ok", _CHECK.run_unit(unit))
     except Exception as e:
         return ("err", f"unit {unit!r}: {traceback.format_exc()}")
+
+
+def run_subunit(pid, fin, fout):
+    import pickle
+
+    chk = load_check(pid)
+    with open(fin, "rb") as f:
+        unit = pickle.load(f)
+    res = chk.run_unit(unit)
+    with open(fout, "wb") as f:
+        pickle.dump(res, f)
+    return 0
 
 
 def run_check(pid, tier, jobs):
@@ -154,7 +186,13 @@ def main(argv=None):
     r = sub.add_parser("replay")
     r.add_argument("path")
     sub.add_parser("selftest")
+    su = sub.add_parser("subunit")
+    su.add_argument("pid")
+    su.add_argument("fin")
+    su.add_argument("fout")
     a = ap.parse_args(argv)
+    if a.cmd == "subunit":
+        return run_subunit(a.pid.upper(), a.fin, a.fout)
     if a.cmd == "check":
         tier = a.tier if a.tier in ("quick", "thorough") else "quick"
         return run_check(a.pid.upper(), tier, a.jobs)
